@@ -179,4 +179,18 @@ PROPS = {
         "not_decided": ["that the published value is the fold (combiner wiring and publication)", "order-independence of the result value (needs a commutative user combiner)",
                         "reduce_layout (wiring-time tree for fixed TSL) is not yet under contract"],
     },
+    "C05": {
+        "modules": ["contracts.c05_collections"],
+        "level": "proof",
+        "design_ref": "DESIGN.md section 8, C05",
+        "trusted_base": [
+            "contract of KeySlotStore (insert returns the live slot / resurrects the key's pending slot / constructs a free slot; "
+            "find_slot; remove_slot makes a live slot pending-erase; erase_pending frees all pending slots) -- assumed, not yet proved on key_slot_store.h",
+            "sul::dynamic_bitset model (test/set/reset/resize/size)",
+            "keys are opaque ids with equality (so the result is generic in the element type)",
+        ],
+        "assumptions": [],
+        "not_decided": ["TSD published/modified bits, TSL/TSB delta bits, tick-count windows (not yet under contract)",
+                        "nested TSD-of-TSD coherence", "stable_slot_store growth (slot identity)"],
+    },
 }
